@@ -36,8 +36,8 @@ example : PTDP_WF { PTDP.fresh with payload := [1, 2, 3], fragment := 3, content
   refine ⟨by simp [PTDP_WF], by decide, by decide, by decide, by decide⟩
 
 /-- the largest length the format allows (2048) is inside the hypotheses -/
-example : PTDP_WF { PTDP.fresh with payload := List.replicate 2048 0xAA, fragment := 0, content := 15 } := by
-  simp [PTDP_WF]
+example : PTDP_WF { PTDP.fresh with payload := List.replicate 2048 0xAA, fragment := 0, content := 15 } :=
+  ⟨by decide, by decide, by simp only [List.length_replicate]; omega⟩
 
 /-- PTFR: version, stream id, low-latency flag, offset and payload are those of the clean frame -/
 theorem PTFR_header_robust (s t : PTFR.State) (h : PTFR_WF s) (e : Nat) (he : e < 2 ^ 24) (hw : wt e ≤ 3)
